@@ -90,6 +90,7 @@ def run_pipeline(tier, seed, log):
     import apalache
     lemma = apalache.discharge(wd, log, module="QueueAccounting", obligations=apalache.QUEUE_OBLIGATIONS, cinit=(),
                                what="for any number of items, consumers and joiners")
+    lemma["tlaps"] = apalache.tlaps(wd, log, "QueueProof", ["QueueAccounting"])
     ntlc = len(scheds)
     cap = 60000 if tier == "thorough" else 8000
     if len(scheds) > cap:
